@@ -1,8 +1,10 @@
 #!/bin/bash
-# Regenerates /verif/harness/go.mod and go.sum from /repo/go.mod (same requirements and replaces,
+# Regenerates /verif/harness/go.mod and go.sum from $R/go.mod (same requirements and replaces,
 # plus a replace of the module under test to the /repo working tree). Offline.
 set -e
-H=/verif/harness
+V=${VERIF_HOME:-/verif}
+R=${VERIF_REPO:-/repo}
+H=$V/harness
 {
   echo "module xdsverif/harness"
   echo
@@ -10,9 +12,9 @@ H=/verif/harness
   echo
   echo "require github.com/kitex-contrib/xds v0.0.0"
   echo
-  awk '/^require \(/{p=1} p{print} /^\)/{if(p){p=0; print ""}}' /repo/go.mod
-  grep '^replace ' /repo/go.mod || true
-  echo "replace github.com/kitex-contrib/xds => /repo"
+  awk '/^require \(/{p=1} p{print} /^\)/{if(p){p=0; print ""}}' $R/go.mod
+  grep '^replace ' $R/go.mod || true
+  echo "replace github.com/kitex-contrib/xds => $R"
 } > $H/go.mod.new
 if ! cmp -s $H/go.mod.new $H/go.mod; then mv $H/go.mod.new $H/go.mod; else rm $H/go.mod.new; fi
-if ! cmp -s /repo/go.sum $H/go.sum; then cp /repo/go.sum $H/go.sum; fi
+if ! cmp -s $R/go.sum $H/go.sum; then cp $R/go.sum $H/go.sum; fi
